@@ -2,11 +2,11 @@
 package checks
 
 import (
+	"bytes"
 	"encoding/json"
+	"fmt"
 	"github.com/deepteams/webp/internal/zzverif/arb"
 	"github.com/deepteams/webp/internal/zzverif/choice"
-	"bytes"
-	"fmt"
 	"image"
 	"image/color"
 	"runtime"
